@@ -274,6 +274,12 @@ func IsEntityEqual(prevJson []byte, thisJson []byte, prevEntity *Entity, thisEnt
 	if !(len(prevJson) == len(thisJson)) {
 		return false
 	}
+	// the length check alone does not show that the deleted flag and the key sets agree
+	if prevEntity.IsDeleted != thisEntity.IsDeleted ||
+		len(prevEntity.References) != len(thisEntity.References) ||
+		len(prevEntity.Properties) != len(thisEntity.Properties) {
+		return false
+	}
 
 	// assuming that the length check is enough to determine that refs and props have the same keys
 	// it is theoretically possible to have the same json length with different keys ... consider matching keys in both objects as well.
